@@ -23,7 +23,7 @@ import supp.scope
 
 PROPERTY = 'C17'
 LEVEL = 'exploration'
-BUDGET_S = {'quick': 110, 'thorough': 1700}
+BUDGET_S = {'quick': 170, 'thorough': 1700}
 UNIT_TIMEOUT_S = 1200
 VERIF = os.path.dirname(os.path.dirname(os.path.abspath(__file__)))
 
@@ -114,7 +114,7 @@ def materialise(case):
     # The directory name is a function of the case alone: path strings take part in the behaviour under test
     # (their hashes order any set they are put in), so the worker, its helper interpreters and a later replay
     # must all see the same paths.
-    core = {k: v for k, v in case.items() if k in ('kind', 'prog', 'spec', 'spec_b', 'libs', 'strays', 'path', 'requests', 'req_seed')}
+    core = {k: v for k, v in case.items() if k in ('kind', 'prog', 'spec', 'spec_b', 'libs', 'strays', 'dup_root', 'path', 'requests', 'req_seed')}
     root = '/tmp/vsimc17-%s-%s' % (case.get('_ns') or NS, prng.digest(core))
     shutil.rmtree(root, ignore_errors=True)
     os.makedirs(root)
@@ -148,7 +148,10 @@ def new_project(root, case):
     if case.get('kind') == 'project' and case.get('spec_b'):
         import supp.server
         srv = supp.server.Server(None)
-        srv.configure({'sources': [os.path.join(root, 'a'), os.path.join(root, 'b')]})
+        roots = [os.path.join(root, 'a'), os.path.join(root, 'b')]
+        if case.get('dup_root'):
+            roots.append(roots[0])          # a root given twice (two plugins of the editor contribute the same one)
+        srv.configure({'sources': roots})
         return srv.project
     return Project([root])
 
@@ -184,6 +187,23 @@ def answers(case, requests, idseeds, repeat=True):
                     p3 = new_project(root, case)
                     res3 = [ask(p3, root, q) for q in reversed(requests)][::-1]
                     out[str(s)] = {'first': res, 'again': res2, 'fresh_reversed': res3}
+                    if case.get('kind') == 'project' and case.get('spec_b'):
+                        # the same process served another configuration before (only the second root): the answers
+                        # for this configuration must not depend on that
+                        from supp.server import Server as _Server
+                        # (all files get a new modification time first: whatever the process remembers about them
+                        # from the projects above is out of date, as after a checkout)
+                        for dp, dn, fns in sorted(os.walk(root)):
+                            for fn_ in sorted(fns):
+                                st = os.stat(os.path.join(dp, fn_))
+                                os.utime(os.path.join(dp, fn_), ns=(st.st_mtime_ns + 10 ** 9, st.st_mtime_ns + 10 ** 9))
+                        for other in ('a', 'b'):
+                            srv = _Server(None)
+                            srv.configure({'sources': [os.path.join(root, other)]})
+                            for q in requests:
+                                ask(srv.project, root, q)
+                        p4 = new_project(root, case)
+                        out[str(s)]['after_other_config'] = [ask(p4, root, q) for q in requests]
                 else:
                     out[str(s)] = {'first': res}
             finally:
@@ -265,6 +285,12 @@ def extra_root_requests(case):
     for m in (case.get('spec_b') or {}).get('modules', []):
         if m['name'] not in names_a and not m.get('init'):
             before += _module_requests(m['name'], 'K0_' + G.short(m['name']))
+    for m in case['spec']['modules']:
+        for it in m['items']:
+            if it[0] == 'tryimport' and any(x['name'] == it[1] for x in (case.get('spec_b') or {}).get('modules', [])):
+                mn = m['name']
+                after.append({'kind': 'assist', 'source': 'import %s\n%s.%s.\n' % (mn, mn, it[1]),
+                              'position': [2, len(mn) + len(it[1]) + 2], 'file': 'zqmain.py', 'multi': True})
     libs = case.get('libs') or []
     done = set()
     for k, lib in enumerate(libs):
@@ -328,7 +354,14 @@ def gen_case(seed, i, mode):
         if r.random() < 0.6:
             # and a module that exists only there
             mods_b.append(_plain_module('zqonlyb', 'b'))
+        # optional imports of the first root's modules that only the second root satisfies
+        for m in spec['modules']:
+            for it in m['items']:
+                if it[0] == 'tryimport' and r.random() < 0.7 and not any(x['name'] == it[1] for x in mods_b):
+                    mods_b.append(_plain_module(it[1], 'b'))
         case['spec_b'] = {'modules': mods_b}
+        if r.random() < 0.3:
+            case['dup_root'] = True
     if r.random() < 0.35:
         strays = []
         for m in spec['modules']:
@@ -431,7 +464,7 @@ def check_case(case, idseeds, hashseeds, stats=None):
         # is an interpreter with PYTHONHASHSEED=0, as in the run that found the violation
         local = ask_helper(0, case, reqs, idseeds, repeat=True)
     if stats is not None:
-        stats['evals'] += len(reqs) * (len(idseeds) + 2 * min(2, len(idseeds)))
+        stats['evals'] += len(reqs) * (len(idseeds) + (4 if case.get('spec_b') else 2) * min(2, len(idseeds)))
     base = local[str(idseeds[0])]['first']
     seen = {}
     for qi, q in enumerate(reqs):
@@ -442,14 +475,15 @@ def check_case(case, idseeds, hashseeds, stats=None):
             stats['keys'].add(prng.derive(prng.digest(case.get('prog') or case.get('spec') or case.get('path')), q['kind'], q.get('position'),
                                           q.get('source') if case['kind'] == 'project' else None) & 0xffffffffffff)
         for s in idseeds:
-            for mode in ('first', 'again', 'fresh_reversed'):
+            for mode in ('first', 'again', 'fresh_reversed', 'after_other_config'):
                 if mode not in local[str(s)]:
                     continue
                 a = local[str(s)][mode][qi]
                 variants.add(json.dumps(a, sort_keys=True))
                 if a != ref and ('nd', qi) not in seen:
                     seen[('nd', qi)] = True
-                    what = 'idseed' if mode == 'first' else ('repeat' if mode == 'again' else 'fresh-project')
+                    what = {'first': 'idseed', 'again': 'repeat', 'fresh_reversed': 'fresh-project',
+                            'after_other_config': 'other-configuration-first'}[mode]
                     vios.append({'sig': 'C17/nondeterministic/%s/%s' % (q['kind'], what),
                                  'detail': 'request %r at %r: answer under identity-hash seed %s is %s, under seed %s (%s) it is %s' % (
                                      q['kind'], q.get('position'), idseeds[0], _brief(ref), s, mode, _brief(a)),
